@@ -652,3 +652,39 @@ Definition b_host1 : option (list Z) := sstr "/10.0.0.1".
 Definition b_host2 : option (list Z) := sstr "/10.0.0.2".
 Definition b_cid1 : option (list Z) := sstr "c1".
 Definition b_cid2 : option (list Z) := sstr "c2".
+
+(* ------------------------------------------------------------------------------------------ *)
+(* C07: every request goes to the module's cluster                                             *)
+(* ------------------------------------------------------------------------------------------ *)
+
+(* Whatever the bytes, whatever the module is called: every request the reader sends - offset update, owner update,
+   owner clear, group delete - names the cluster the module is configured for (not the module's own name), and apart
+   from that the requests are those of process_message. *)
+Theorem requests_addressed_to_cluster : forall cfg (accept : list Z -> bool) key value o rs al,
+  process_message_for cfg accept key value o = DoneFor rs al ->
+  Forall (fun cr => fst cr = rc_cluster cfg) rs /\
+  process_message accept key value o = Done (map snd rs) al.
+Proof.
+  intros cfg accept key value o rs al H. unfold process_message_for, address in H.
+  destruct (process_message accept key value o) as [w|rs0 al0]; [discriminate|].
+  inversion H; subst. split.
+  - apply Forall_forall. intros cr Hin. apply in_map_iff in Hin. destruct Hin as (r & <- & _). reflexivity.
+  - rewrite map_map. cbn [snd]. rewrite map_id. reflexivity.
+Qed.
+
+Theorem process_for_never_crashes : forall cfg (accept : list Z -> bool) key value o,
+  exists rs al, process_message_for cfg accept key value o = DoneFor rs al.
+Proof.
+  intros. destruct (process_never_crashes accept key value o) as (rs & al & H).
+  unfold process_message_for. rewrite H. cbn [address]. eauto.
+Qed.
+
+(* a metadata tombstone deletes the group in the module's cluster *)
+Theorem metadata_tombstone_for : forall cfg (accept : list Z -> bool) g o,
+  str_ok g -> accept (str_val g) = true ->
+  exists al, process_message_for cfg accept (enc_meta_key g) [] o
+             = DoneFor [(rc_cluster cfg, DeleteGroup (str_val g))] al.
+Proof.
+  intros cfg accept g o Hg Ha. destruct (metadata_tombstone accept g o Hg) as (al & H).
+  unfold process_message_for. rewrite H, Ha. cbn [address map]. eauto.
+Qed.
